@@ -44,6 +44,13 @@ func drawParams(k int, r *prng.R, tier string) caseParams {
 		p.kind = "gc"
 	case k == 3: // reset of a node whose headers are ahead of its blocks
 		p.kind, p.hdrs, p.stopAt = "reset", true, p.n-r.Range(2, 6)
+	case k == 5 || (tier == "thorough" && k%20 == 19): // a chain crossing a header-hash page boundary (2000), then reset across it
+		p.kind, p.hdrs = "page", true
+		p.n = 2000 + r.Range(12, 40)
+		p.target = uint32(2000 - r.Range(1, 12))
+		if r.Chance(1, 3) {
+			p.target = uint32(2000 + r.Range(0, 5))
+		}
 	case k == 4: // reset to the current height, only headers to drop
 		p.kind, p.hdrs, p.stopAt = "reset", true, p.n-r.Range(2, 6)
 		p.target = uint32(p.stopAt)
@@ -61,6 +68,9 @@ func drawParams(k int, r *prng.R, tier string) caseParams {
 		p.n = r.Range(18, 26)
 		p.pfMille = 250
 		p.hdrs = false
+	}
+	if p.kind == "page" {
+		p.stopAt = 0
 	}
 	if p.kind == "reset" && p.target == 0 {
 		top := p.n
@@ -83,14 +93,36 @@ func runCase(k int, seed uint64, tier string) *caseOut {
 	r := prng.ForCase(seed, k)
 	p := drawParams(k, r, tier)
 	c.cnt.count("kind:" + p.kind)
-	h, err := buildHistory(r, p.proto, p.n, &c.cnt, false)
+	steps := genSchedule(r, uint32(p.n), p.pfMille, p.hdrs)
+	if p.kind == "page" {
+		steps = pageSchedule(r, uint32(p.n))
+	}
+	// full reference observations are only needed where a node can be recovered: flush heights, reset target, tip
+	want := map[uint32]bool{0: true, uint32(p.n): true, p.target: true}
+	var lastBlk uint32
+	for _, s := range steps {
+		if s.Kind == "blk" {
+			lastBlk = s.H
+		}
+		if s.Kind == "flush" {
+			want[lastBlk] = true
+		}
+	}
+	if p.stopAt != 0 {
+		want[uint32(p.stopAt)] = true
+	}
+	withTxs := func(i int) bool { return true }
+	wantF := func(h uint32) bool { return p.local.RUB || want[h] }
+	if p.kind == "page" {
+		withTxs = func(i int) bool { return i <= 6 || i >= p.n-14 }
+	}
+	h, err := buildHistory(r, p.proto, p.n, &c.cnt, withTxs, wantF)
 	if err != nil {
 		c.fail("harness-history", "building the history failed: %v", err)
 		return c
 	}
 	base := h.Cfg
 	cfg := nodeConfig(h, base, p.local)
-	steps := genSchedule(r, h.N(), p.pfMille, p.hdrs)
 	if p.stopAt != 0 {
 		// keep the steps up to block stopAt, then (maybe) all headers
 		var cut []Step
@@ -145,7 +177,7 @@ func runCase(k int, seed uint64, tier string) *caseOut {
 		}
 		checkPrefix(c, h, cfg, len(bs), accepted, false, i, copyDB(db), skip, "")
 	}
-	if p.kind == "reset" {
+	if p.kind == "reset" || p.kind == "page" {
 		resetScenario(c, h, cfg, sr, p.target, skip)
 	}
 	c.seen = append(c.seen, fmt.Sprintf("%s/%d/%d/%v", p.kind, p.n, len(bs), p.proto))
@@ -207,4 +239,29 @@ func main() {
 			o.Sample(s)
 		}
 	}
+}
+
+// pageSchedule: sparse flushes far from the header-hash page boundary, dense ones around it.
+func pageSchedule(r *prng.R, n uint32) []Step {
+	var (
+		steps  []Step
+		p, hdr uint32
+	)
+	for p < n {
+		near := p+12 >= 2000 && p <= 2006
+		if near && max(hdr, p) < n && r.Chance(1, 6) {
+			hdr = min(n, max(hdr, p)+uint32(r.Range(1, 4)))
+			steps = append(steps, Step{"hdr", hdr})
+			if r.Chance(1, 2) {
+				steps = append(steps, Step{"flush", 0})
+			}
+			continue
+		}
+		p++
+		steps = append(steps, Step{"blk", p})
+		if p == 5 || p%700 == 0 || (near && r.Chance(7, 10)) || (p > 2006 && r.Chance(1, 6)) {
+			steps = append(steps, Step{"flush", 0})
+		}
+	}
+	return steps
 }
